@@ -364,3 +364,50 @@ Definition run_validate (l : list N) : list N :=
       end
   | _ => [9]
   end.
+
+(* ------------------------------------------------------------------ *)
+(* per-operation footprint (C03 C04 C06 C18)                            *)
+(* ------------------------------------------------------------------ *)
+From XcpModel Require Import Ops.
+
+Definition act_code (a : sysact) : list N :=
+  match a with
+  | AOpenRO _ | AStat _ | AReaddir _ | ARead _ _ _ => []
+  | ARename _ _ => [1] | ACreateTrunc _ => [2] | AFtruncate _ _ => [3] | AClone _ => [4] | AWrite _ _ _ => [5]
+  | AChown _ => [6] | ASetxattr _ => [7] | AChmod _ => [8] | AUtimens _ => [9] | AFsync _ => [10]
+  | ASymlink _ _ => [11] | AUnlink _ => [12] | AMknod _ => [13] | AMkdir _ => [14]
+  end.
+
+Fixpoint collapse_writes (l : list N) : list N :=
+  match l with
+  | 5 :: ((5 :: _) as r) => collapse_writes r
+  | x :: r => x :: collapse_writes r
+  | [] => []
+  end.
+
+(* [np nt ow fs; dst_exists same backup(0 | n+1) len cloned issued nwrites nxattr] -> [ok] ++ mutating action codes *)
+Definition run_copy_actions (l : list N) : list N :=
+  match l with
+  | np :: nt :: ow :: fs :: dex :: same :: bk :: len :: cloned :: issued :: nw :: nx :: _ =>
+      let fc := mkFin (negb (np =? 0)) (negb (nt =? 0)) (negb (ow =? 0)) (negb (fs =? 0)) in
+      let e := mkEnv (negb (dex =? 0)) (negb (same =? 0)) (if bk =? 0 then None else Some (bk - 1)) len
+                     (negb (cloned =? 0)) (negb (issued =? 0)) (repeat (0, 1) (N.to_nat nw)) (N.to_nat nx) in
+      let '(acts, ok) := copy_actions fc [] [] e in
+      b2n ok :: collapse_writes (flat_map act_code acts)
+  | _ => [9]
+  end.
+
+(* fault effect per action kind code (C04): [code] -> [0 error | 1 tolerated | 2 swallowed] *)
+Definition run_fault_effect (l : list N) : list N :=
+  match l with
+  | c :: _ =>
+      let k := KDst [] in
+      let a := if c =? 1 then ARename k k else if c =? 2 then ACreateTrunc k else if c =? 3 then AFtruncate k 0
+               else if c =? 4 then AClone k else if c =? 5 then AWrite k 0 0 else if c =? 6 then AChown k
+               else if c =? 7 then ASetxattr k else if c =? 8 then AChmod k else if c =? 9 then AUtimens k
+               else if c =? 10 then AFsync k else if c =? 11 then ASymlink k [] else if c =? 12 then AUnlink k
+               else if c =? 13 then AMknod k else if c =? 14 then AMkdir k else if c =? 20 then AOpenRO (KSrc [])
+               else if c =? 21 then AStat (KSrc []) else AReaddir k in
+      [match fault_effect_of a with FxError => 0 | FxTolerated => 1 | FxSwallowed => 2 end]
+  | [] => [9]
+  end.
